@@ -179,6 +179,11 @@ def body(ctx):
                     ops=[dict(api='pull', path='/x%d' % k5, size=140000, data_sizes=[65536, 65536, 8928], cuts='whole', dest='path', local_as=la, cb=cbk)])
         for mode in ('sync', 'async'):
             runs.append((mode, spec) + run_with_inert(spec, mode))
+    # DATA records whose packetisation contains WRITEs without payload
+    for k in range(3):
+        spec = dict(seed=ctx.seed + 850 + k, maxdata=4096, rid='plus', frag='whole', ops=[dict(api='pull', path='/e%d' % k, size=9000, data_sizes=[4000, 4000, 1000], cuts='empties', dest='bytesio', cb=(None, 'ok', None)[k])])
+        for mode in ('sync', 'async'):
+            runs.append((mode, spec) + run_with_inert(spec, mode))
     # a file that arrives in more than a thousand records
     spec = dict(seed=ctx.seed + 790, maxdata=65536, rid='plus', frag='whole', ops=[dict(api='pull', path='/many', size=1500, data_sizes=[1] * 1500, cuts='whole', dest='bytesio', cb=None)])
     for mode in ('sync', 'async'):
